@@ -287,7 +287,7 @@ func (h *harness) concurrentRound(rng *lib.RNG, round int) {
 		}()
 	}
 	done := lib.WithDeadline(600*time.Second, func() {
-		for _, o := range ops {
+		for opIdx, o := range ops {
 			switch o.Op {
 			case "apply":
 				err, panicked, _ := lib.Try(func() error {
@@ -307,6 +307,9 @@ func (h *harness) concurrentRound(rng *lib.RNG, round int) {
 			// pacing by COUNT, not by time: the next writer op waits until the readers have taken a dozen more
 			// views, so that every state of the storage is met by readers in the middle of their work (without it
 			// the writer is through its history before the readers have finished a handful of non-empty views)
+			if h.f.Thorough() && opIdx%4 != 0 {
+				continue // thorough: 7.5 times the ops per round; every fourth op is paced
+			}
 			for target := views.Load() + 4; views.Load() < target; {
 				runtime.Gosched()
 			}
